@@ -469,3 +469,354 @@ theorem parse_eq_decode (e : Endian) (enc : Encoding) (bs : Bytes) : parse e enc
   | cons b rest =>
     show parseOperands e enc b.toNat rest = specOperands e enc b.toNat rest
     exact parseOperands_eq_spec e enc rest b.toNat (UInt8.toNat_lt b)
+
+/-! ## totality of decode: never a panic, never fuel -/
+
+theorem bind_normal {α β} (x : Out α) (f : α → Out β) (hx : x.Normal) (hf : ∀ a, (f a).Normal) :
+    (x >>= f).Normal := by
+  cases x with
+  | ok a => exact hf a
+  | err e => trivial
+  | panic w => exact hx
+  | diverge => exact hx
+
+theorem args0_normal (args : List Arg) (op : Operation) : (args0 args op).Normal := by
+  unfold args0; split <;> trivial
+theorem argsN_normal (args : List Arg) (f : Nat → Out Operation) (hf : ∀ a, (f a).Normal) : (argsN args f).Normal := by
+  unfold argsN; split <;> first | exact hf _ | trivial
+theorem argsI_normal (args : List Arg) (f : Int → Operation) : (argsI args f).Normal := by
+  unfold argsI; split <;> trivial
+theorem argsB_normal (args : List Arg) (f : Bytes → Operation) : (argsB args f).Normal := by
+  unfold argsB; split <;> trivial
+theorem argsNN_normal (args : List Arg) (f : Nat → Nat → Out Operation) (hf : ∀ a b, (f a b).Normal) :
+    (argsNN args f).Normal := by
+  unfold argsNN; split <;> first | exact hf _ _ | trivial
+theorem argsNI_normal (args : List Arg) (f : Nat → Int → Operation) : (argsNI args f).Normal := by
+  unfold argsNI; split <;> trivial
+theorem argsNB_normal (args : List Arg) (f : Nat → Bytes → Operation) : (argsNB args f).Normal := by
+  unfold argsNB; split <;> trivial
+
+macro "mn" : tactic => `(tactic| first
+  | exact args0_normal _ _
+  | exact argsN_normal _ _ (fun _ => trivial)
+  | exact argsI_normal _ _
+  | exact argsB_normal _ _
+  | exact argsNN_normal _ _ (fun _ _ => trivial)
+  | exact argsNI_normal _ _
+  | exact argsNB_normal _ _
+  | exact argsN_normal _ _ (fun _ => by split <;> trivial)
+  | exact argsNN_normal _ _ (fun _ _ => by repeat (first | trivial | split))
+  | trivial)
+
+theorem mn_chunk0 (enc : Encoding) (args : List Arg) (n : Nat) (h1 : 0 ≤ n) (h2 : n < 32) :
+    (meaning enc n args).Normal :=
+  match n, h1, h2 with
+  | 0, _, _ => by mn
+  | 1, _, _ => by mn
+  | 2, _, _ => by mn
+  | 3, _, _ => by mn
+  | 4, _, _ => by mn
+  | 5, _, _ => by mn
+  | 6, _, _ => by mn
+  | 7, _, _ => by mn
+  | 8, _, _ => by mn
+  | 9, _, _ => by mn
+  | 10, _, _ => by mn
+  | 11, _, _ => by mn
+  | 12, _, _ => by mn
+  | 13, _, _ => by mn
+  | 14, _, _ => by mn
+  | 15, _, _ => by mn
+  | 16, _, _ => by mn
+  | 17, _, _ => by mn
+  | 18, _, _ => by mn
+  | 19, _, _ => by mn
+  | 20, _, _ => by mn
+  | 21, _, _ => by mn
+  | 22, _, _ => by mn
+  | 23, _, _ => by mn
+  | 24, _, _ => by mn
+  | 25, _, _ => by mn
+  | 26, _, _ => by mn
+  | 27, _, _ => by mn
+  | 28, _, _ => by mn
+  | 29, _, _ => by mn
+  | 30, _, _ => by mn
+  | 31, _, _ => by mn
+  | n + 32, _, h => absurd h (by omega)
+
+theorem mn_chunk1 (enc : Encoding) (args : List Arg) (n : Nat) (h1 : 32 ≤ n) (h2 : n < 64) :
+    (meaning enc n args).Normal :=
+  match n, h1, h2 with
+  | 32, _, _ => by mn
+  | 33, _, _ => by mn
+  | 34, _, _ => by mn
+  | 35, _, _ => by mn
+  | 36, _, _ => by mn
+  | 37, _, _ => by mn
+  | 38, _, _ => by mn
+  | 39, _, _ => by mn
+  | 40, _, _ => by mn
+  | 41, _, _ => by mn
+  | 42, _, _ => by mn
+  | 43, _, _ => by mn
+  | 44, _, _ => by mn
+  | 45, _, _ => by mn
+  | 46, _, _ => by mn
+  | 47, _, _ => by mn
+  | 48, _, _ => by mn
+  | 49, _, _ => by mn
+  | 50, _, _ => by mn
+  | 51, _, _ => by mn
+  | 52, _, _ => by mn
+  | 53, _, _ => by mn
+  | 54, _, _ => by mn
+  | 55, _, _ => by mn
+  | 56, _, _ => by mn
+  | 57, _, _ => by mn
+  | 58, _, _ => by mn
+  | 59, _, _ => by mn
+  | 60, _, _ => by mn
+  | 61, _, _ => by mn
+  | 62, _, _ => by mn
+  | 63, _, _ => by mn
+  | 0, h, _ => absurd h (by omega)
+  | n + 64, _, h => absurd h (by omega)
+
+theorem mn_chunk2 (enc : Encoding) (args : List Arg) (n : Nat) (h1 : 64 ≤ n) (h2 : n < 96) :
+    (meaning enc n args).Normal :=
+  match n, h1, h2 with
+  | 64, _, _ => by mn
+  | 65, _, _ => by mn
+  | 66, _, _ => by mn
+  | 67, _, _ => by mn
+  | 68, _, _ => by mn
+  | 69, _, _ => by mn
+  | 70, _, _ => by mn
+  | 71, _, _ => by mn
+  | 72, _, _ => by mn
+  | 73, _, _ => by mn
+  | 74, _, _ => by mn
+  | 75, _, _ => by mn
+  | 76, _, _ => by mn
+  | 77, _, _ => by mn
+  | 78, _, _ => by mn
+  | 79, _, _ => by mn
+  | 80, _, _ => by mn
+  | 81, _, _ => by mn
+  | 82, _, _ => by mn
+  | 83, _, _ => by mn
+  | 84, _, _ => by mn
+  | 85, _, _ => by mn
+  | 86, _, _ => by mn
+  | 87, _, _ => by mn
+  | 88, _, _ => by mn
+  | 89, _, _ => by mn
+  | 90, _, _ => by mn
+  | 91, _, _ => by mn
+  | 92, _, _ => by mn
+  | 93, _, _ => by mn
+  | 94, _, _ => by mn
+  | 95, _, _ => by mn
+  | 0, h, _ => absurd h (by omega)
+  | n + 96, _, h => absurd h (by omega)
+
+theorem mn_chunk3 (enc : Encoding) (args : List Arg) (n : Nat) (h1 : 96 ≤ n) (h2 : n < 128) :
+    (meaning enc n args).Normal :=
+  match n, h1, h2 with
+  | 96, _, _ => by mn
+  | 97, _, _ => by mn
+  | 98, _, _ => by mn
+  | 99, _, _ => by mn
+  | 100, _, _ => by mn
+  | 101, _, _ => by mn
+  | 102, _, _ => by mn
+  | 103, _, _ => by mn
+  | 104, _, _ => by mn
+  | 105, _, _ => by mn
+  | 106, _, _ => by mn
+  | 107, _, _ => by mn
+  | 108, _, _ => by mn
+  | 109, _, _ => by mn
+  | 110, _, _ => by mn
+  | 111, _, _ => by mn
+  | 112, _, _ => by mn
+  | 113, _, _ => by mn
+  | 114, _, _ => by mn
+  | 115, _, _ => by mn
+  | 116, _, _ => by mn
+  | 117, _, _ => by mn
+  | 118, _, _ => by mn
+  | 119, _, _ => by mn
+  | 120, _, _ => by mn
+  | 121, _, _ => by mn
+  | 122, _, _ => by mn
+  | 123, _, _ => by mn
+  | 124, _, _ => by mn
+  | 125, _, _ => by mn
+  | 126, _, _ => by mn
+  | 127, _, _ => by mn
+  | 0, h, _ => absurd h (by omega)
+  | n + 128, _, h => absurd h (by omega)
+
+theorem mn_chunk4 (enc : Encoding) (args : List Arg) (n : Nat) (h1 : 128 ≤ n) (h2 : n < 160) :
+    (meaning enc n args).Normal :=
+  match n, h1, h2 with
+  | 128, _, _ => by mn
+  | 129, _, _ => by mn
+  | 130, _, _ => by mn
+  | 131, _, _ => by mn
+  | 132, _, _ => by mn
+  | 133, _, _ => by mn
+  | 134, _, _ => by mn
+  | 135, _, _ => by mn
+  | 136, _, _ => by mn
+  | 137, _, _ => by mn
+  | 138, _, _ => by mn
+  | 139, _, _ => by mn
+  | 140, _, _ => by mn
+  | 141, _, _ => by mn
+  | 142, _, _ => by mn
+  | 143, _, _ => by mn
+  | 144, _, _ => by mn
+  | 145, _, _ => by mn
+  | 146, _, _ => by mn
+  | 147, _, _ => by mn
+  | 148, _, _ => by mn
+  | 149, _, _ => by mn
+  | 150, _, _ => by mn
+  | 151, _, _ => by mn
+  | 152, _, _ => by mn
+  | 153, _, _ => by mn
+  | 154, _, _ => by mn
+  | 155, _, _ => by mn
+  | 156, _, _ => by mn
+  | 157, _, _ => by mn
+  | 158, _, _ => by mn
+  | 159, _, _ => by mn
+  | 0, h, _ => absurd h (by omega)
+  | n + 160, _, h => absurd h (by omega)
+
+theorem mn_chunk5 (enc : Encoding) (args : List Arg) (n : Nat) (h1 : 160 ≤ n) (h2 : n < 192) :
+    (meaning enc n args).Normal :=
+  match n, h1, h2 with
+  | 160, _, _ => by mn
+  | 161, _, _ => by mn
+  | 162, _, _ => by mn
+  | 163, _, _ => by mn
+  | 164, _, _ => by mn
+  | 165, _, _ => by mn
+  | 166, _, _ => by mn
+  | 167, _, _ => by mn
+  | 168, _, _ => by mn
+  | 169, _, _ => by mn
+  | 170, _, _ => by mn
+  | 171, _, _ => by mn
+  | 172, _, _ => by mn
+  | 173, _, _ => by mn
+  | 174, _, _ => by mn
+  | 175, _, _ => by mn
+  | 176, _, _ => by mn
+  | 177, _, _ => by mn
+  | 178, _, _ => by mn
+  | 179, _, _ => by mn
+  | 180, _, _ => by mn
+  | 181, _, _ => by mn
+  | 182, _, _ => by mn
+  | 183, _, _ => by mn
+  | 184, _, _ => by mn
+  | 185, _, _ => by mn
+  | 186, _, _ => by mn
+  | 187, _, _ => by mn
+  | 188, _, _ => by mn
+  | 189, _, _ => by mn
+  | 190, _, _ => by mn
+  | 191, _, _ => by mn
+  | 0, h, _ => absurd h (by omega)
+  | n + 192, _, h => absurd h (by omega)
+
+theorem mn_chunk6 (enc : Encoding) (args : List Arg) (n : Nat) (h1 : 192 ≤ n) (h2 : n < 224) :
+    (meaning enc n args).Normal :=
+  match n, h1, h2 with
+  | 192, _, _ => by mn
+  | 193, _, _ => by mn
+  | 194, _, _ => by mn
+  | 195, _, _ => by mn
+  | 196, _, _ => by mn
+  | 197, _, _ => by mn
+  | 198, _, _ => by mn
+  | 199, _, _ => by mn
+  | 200, _, _ => by mn
+  | 201, _, _ => by mn
+  | 202, _, _ => by mn
+  | 203, _, _ => by mn
+  | 204, _, _ => by mn
+  | 205, _, _ => by mn
+  | 206, _, _ => by mn
+  | 207, _, _ => by mn
+  | 208, _, _ => by mn
+  | 209, _, _ => by mn
+  | 210, _, _ => by mn
+  | 211, _, _ => by mn
+  | 212, _, _ => by mn
+  | 213, _, _ => by mn
+  | 214, _, _ => by mn
+  | 215, _, _ => by mn
+  | 216, _, _ => by mn
+  | 217, _, _ => by mn
+  | 218, _, _ => by mn
+  | 219, _, _ => by mn
+  | 220, _, _ => by mn
+  | 221, _, _ => by mn
+  | 222, _, _ => by mn
+  | 223, _, _ => by mn
+  | 0, h, _ => absurd h (by omega)
+  | n + 224, _, h => absurd h (by omega)
+
+theorem mn_chunk7 (enc : Encoding) (args : List Arg) (n : Nat) (h1 : 224 ≤ n) (h2 : n < 256) :
+    (meaning enc n args).Normal :=
+  match n, h1, h2 with
+  | 224, _, _ => by mn
+  | 225, _, _ => by mn
+  | 226, _, _ => by mn
+  | 227, _, _ => by mn
+  | 228, _, _ => by mn
+  | 229, _, _ => by mn
+  | 230, _, _ => by mn
+  | 231, _, _ => by mn
+  | 232, _, _ => by mn
+  | 233, _, _ => by mn
+  | 234, _, _ => by mn
+  | 235, _, _ => by mn
+  | 236, _, _ => by mn
+  | 237, _, _ => by mn
+  | 238, _, _ => by mn
+  | 239, _, _ => by mn
+  | 240, _, _ => by mn
+  | 241, _, _ => by mn
+  | 242, _, _ => by mn
+  | 243, _, _ => by mn
+  | 244, _, _ => by mn
+  | 245, _, _ => by mn
+  | 246, _, _ => by mn
+  | 247, _, _ => by mn
+  | 248, _, _ => by mn
+  | 249, _, _ => by mn
+  | 250, _, _ => by mn
+  | 251, _, _ => by mn
+  | 252, _, _ => by mn
+  | 253, _, _ => by mn
+  | 254, _, _ => by mn
+  | 255, _, _ => by mn
+  | 0, h, _ => absurd h (by omega)
+  | n + 256, _, h => absurd h (by omega)
+
+theorem meaning_normal (enc : Encoding) (args : List Arg) (n : Nat) (hn : n < 256) : (meaning enc n args).Normal := by
+  by_cases h0 : n < 32; exact mn_chunk0 enc args n (by omega) h0
+  by_cases h1 : n < 64; exact mn_chunk1 enc args n (by omega) h1
+  by_cases h2 : n < 96; exact mn_chunk2 enc args n (by omega) h2
+  by_cases h3 : n < 128; exact mn_chunk3 enc args n (by omega) h3
+  by_cases h4 : n < 160; exact mn_chunk4 enc args n (by omega) h4
+  by_cases h5 : n < 192; exact mn_chunk5 enc args n (by omega) h5
+  by_cases h6 : n < 224; exact mn_chunk6 enc args n (by omega) h6
+  exact mn_chunk7 enc args n (by omega) hn
